@@ -78,7 +78,7 @@ Lemma fold_left_split {A} (f : pool -> A -> pool) (l : list A) a : a ∈ l -> No
   exists l1 l2, a ∉ l1 /\ a ∉ l2 /\ forall p, fold_left f l p = fold_left f l2 (f (fold_left f l1 p) a).
 Proof.
   intros H ND. apply elem_of_list_split in H as (l1 & l2 & ->). exists l1, l2.
-  apply NoDup_app in ND as (_ & N1 & N2). apply NoDup_cons in N2 as [N2 _]. split_and!.
+  apply NoDup_app in ND as (_ & N1 & N2). apply list.NoDup_cons in N2 as [N2 _]. split_and!.
   - intros F. apply (N1 a F). set_solver.
   - done.
   - intros p. rewrite fold_left_app. done.
@@ -92,14 +92,16 @@ Section snapshot.
 
   Lemma fold_hk l p : PInv p -> PInv (fold_left f l p) /\ hk p (fold_left f l p).
   Proof.
-    intros I. apply (fold_rel f PInv hk (fun _ => True)); eauto using hk_refl, hk_trans.
-    apply Forall_forall. done.
+    intros I. apply (fold_rel f PInv hk (fun _ => True));
+      [apply hk_refl | apply hk_trans | intros q a' Iq _; split; [by apply f_inv|by apply f_hk]
+      | by apply Forall_forall | done].
   Qed.
 
   Lemma fold_notin l a p : PInv p -> a ∉ l -> same_at a p (fold_left f l p).
   Proof.
-    intros I N. apply (fold_rel f PInv (same_at a) (fun a' => a' <> a)); eauto using same_at_refl, same_at_trans.
-    apply Forall_forall. intros a' H ->. done.
+    intros I N. apply (fold_rel f PInv (same_at a) (fun a' => a' <> a));
+      [apply same_at_refl | apply same_at_trans | intros q a' Iq Na; split; [by apply f_inv|by apply f_other]
+      | apply list.Forall_forall; by intros a' H -> | done].
   Qed.
 
   (* the fold visits [a] exactly once; before and after, [a]'s entries are untouched *)
@@ -244,7 +246,9 @@ Qed.
 
 Lemma close_idle_hk p : hk p (close_idle p).
 Proof.
-  unfold close_idle. eapply hk_trans; apply fold_hk_simple; [apply close_idle_active_hk|apply close_idle_queue_hk].
+  unfold close_idle. eapply hk_trans.
+  - apply (fold_hk_simple close_idle_active). apply close_idle_active_hk.
+  - apply (fold_hk_simple close_idle_queue). apply close_idle_queue_hk.
 Qed.
 
 (* ------------------------------------------------------------------ *)
@@ -261,13 +265,91 @@ Proof.
   intros I. apply fold_hk; [apply tick_active_inv|apply tick_active_hk|by apply set_now_inv].
 Qed.
 
+Lemma fold_tick_idle_active now l : forall q, p_active (fold_left (tick_idle now) l q) = p_active q.
+Proof. induction l as [|a l IH]; intros q; simpl; [done|]. rewrite IH. apply tick_idle_active. Qed.
+
 Lemma tick_facts now p : PInv p -> hk (set_now now p) (tick now p) /\ p_active (tick now p) = p_active (tick1 now p).
 Proof.
   intros I. destruct (tick1_facts now p I) as [I1 H1]. rewrite tick_eq. split.
   - eapply hk_trans; [done|]. apply fold_hk_simple. intros; apply tick_idle_hk.
-  - generalize (tick1 now p). induction (addrs_of _) as [|a l IH]; intros q; simpl; [done|].
-    rewrite IH. apply tick_idle_active.
+  - apply fold_tick_idle_active.
 Qed.
 
 Lemma tick_hk_busy now p c : PInv p -> busy_of (tick now p) c = busy_of p c.
 Proof. intros I. destruct (tick_facts now p I) as [H _]. by rewrite (hk_busy _ _ c H). Qed.
+
+Lemma rcond_set_now n p now c : rcond (set_now n p) now c = rcond p now c.
+Proof. reflexivity. Qed.
+
+Lemma lookup_addrs_of_None (m : gmap addr (list cid * nat)) (a : addr) : a ∉ addrs_of m -> m !! a = None.
+Proof. intros N. destruct (m !! a) eqn:E; [|done]. exfalso. apply N, elem_of_addrs_of. eauto. Qed.
+
+(* first loop of the tick, seen from address [a] *)
+Lemma tick1_at now p a : PInv p ->
+  let p1 := tick1 now p in
+  (forall c, c ∈ active_of p1 a <-> c ∈ active_of p a /\ rcond p now c = false) /\
+  (forall cs' cur', p_active p1 !! a = Some (cs', cur') -> cs' <> [] /\ cs' = active_of p1 a) /\
+  ((forall c, c ∈ active_of p a -> rcond p now c = false) -> p_idle p1 !! a = p_idle p !! a).
+Proof.
+  intros I. cbv zeta. unfold tick1.
+  set (p0 := set_now now p). assert (I0 : PInv p0) by (by apply set_now_inv).
+  set (l := addrs_of (p_active p0)).
+  destruct (decide (a ∈ l)) as [Hin|Hnot].
+  - destruct (fold_in (tick_active now) (tick_active_inv now) (tick_active_hk now)
+               (fun p a a' => tick_active_other now p a a') l a p0 I0 (NoDup_addrs_of _) Hin)
+      as (pa & Ia & Ha & [Sa1 Sa2] & Hb & [Sb1 Sb2]).
+    apply elem_of_addrs_of in Hin as [[cs cur] E]. change (p_active p0) with (p_active p) in *.
+    change (p_idle p0) with (p_idle p) in *.
+    assert (Ea : p_active pa !! a = Some (cs, cur)) by congruence.
+    assert (Ecs : active_of p a = cs) by (unfold active_of; by rewrite E).
+    destruct (tick_active_at now pa a cs cur Ia Ea) as [K F].
+    assert (RC : forall c, rcond pa now c = rcond p now c).
+    { intros c. rewrite (hk_rcond _ _ now c Ha). apply rcond_set_now. }
+    rewrite (active_of_eq _ _ a Sb1). split_and!.
+    + intros c. rewrite K, RC, Ecs. done.
+    + intros cs' cur' H. rewrite Sb1 in H. apply (F _ _ H).
+    + intros H. rewrite Sb2. rewrite tick_active_noop; [congruence|].
+      intros cs0 cur0 H0. rewrite Ea in H0. injection H0 as <- <-. split; [eapply pi_active_nonempty; eauto|].
+      intros c Hc. rewrite RC. apply H. by rewrite Ecs.
+  - pose proof (fold_notin (tick_active now) (tick_active_inv now)
+               (fun p a a' => tick_active_other now p a a') l a p0 I0 Hnot) as [S1 S2].
+    apply lookup_addrs_of_None in Hnot. change (p_active p0) with (p_active p) in *.
+    change (p_idle p0) with (p_idle p) in *.
+    assert (Ecs : active_of p a = []) by (unfold active_of; by rewrite Hnot).
+    rewrite (active_of_eq _ _ a S1). split_and!.
+    + intros c. rewrite Ecs. set_solver.
+    + intros cs' cur'. rewrite S1, Hnot. done.
+    + done.
+Qed.
+
+(* second loop of the tick, seen from address [a] *)
+Lemma tick2_at now p1 a : PInv p1 ->
+  let p' := fold_left (tick_idle now) (addrs_of (p_idle p1)) p1 in
+  (forall q' cap', p_idle p' !! a = Some (q', cap') -> q' <> [] /\ econd p1 now q' = false) /\
+  (forall q cap, p_idle p1 !! a = Some (q, cap) ->
+     (forall c, c ∈ q -> busy_of p1 c = 0%nat /\ last_of p1 c + p_idleto p1 < now) ->
+     p_idle p' !! a = None /\ forall c, c ∈ q -> is_open p' c = false).
+Proof.
+  intros I. cbv zeta. set (l := addrs_of (p_idle p1)).
+  destruct (decide (a ∈ l)) as [Hin|Hnot].
+  - destruct (fold_in (tick_idle now) (tick_idle_inv now) (fun p a _ => tick_idle_hk now p a)
+               (fun p a a' _ => tick_idle_other now p a a') l a p1 I (NoDup_addrs_of _) Hin)
+      as (pa & Ia & Ha & [Sa1 Sa2] & Hb & [Sb1 Sb2]).
+    apply elem_of_addrs_of in Hin as [[q cap] E].
+    assert (Ea : p_idle pa !! a = Some (q, cap)) by congruence.
+    destruct (tick_idle_at now pa a q cap Ea) as [F G]. split.
+    + intros q' cap' H. rewrite Sb2 in H. destruct (F _ _ H) as [N EC]. split; [done|].
+      by rewrite <- (hk_econd _ _ now q' Ha).
+    + intros q0 cap0 E0 H. rewrite E in E0. simplify_eq. destruct G as [G1 G2].
+      { intros c Hc. rewrite (hk_busy _ _ c Ha), (hk_last _ _ c Ha).
+        destruct Ha as (M & _). rewrite (meta_idleto _ _ M). by apply H. }
+      split; [congruence|]. intros c Hc. eapply hk_open_mono; eauto.
+  - pose proof (fold_notin (tick_idle now) (tick_idle_inv now)
+               (fun p a a' _ => tick_idle_other now p a a') l a p1 I Hnot) as [S1 S2].
+    apply lookup_addrs_of_None in Hnot. split.
+    + intros q' cap'. rewrite S2, Hnot. done.
+    + intros q cap. rewrite Hnot. done.
+Qed.
+
+Lemma fold_id {A} (f : pool -> A -> pool) l p : (forall a, f p a = p) -> fold_left f l p = p.
+Proof. intros H. induction l as [|a l IH]; simpl; [done|]. by rewrite H. Qed.
